@@ -301,6 +301,35 @@ def flattenInit (nums : List Nat) (init : List (Sum Nat (List α))) : List α :=
     | Sum.inl a => pure2mixed (nums.getD i 0) a
     | Sum.inr v => v).flatten
 
+/-- the argument forms an entry of `init` can take, as `_flatten_action_profile` distinguishes them
+    (lines 288-294): anything that is a `numbers.Integral` is a pure action — Python `int`, every
+    NumPy integer scalar (also the elements of an integer `ndarray`), Python `bool`; everything else
+    is assigned to the block as it is (`out[lo:hi] = entry`): vectors element-wise, scalars, 0-d
+    arrays and `np.bool_` by broadcasting. -/
+inductive InitEntry (α : Type) where
+  | pyInt (k : Nat)
+  | npInt (k : Nat)
+  | pyBool (b : Bool)
+  | npBool (b : Bool)
+  | zeroD (x : α)
+  | scalar (x : α)
+  | vec (v : List α)
+
+/-- `_flatten_action_profile(init, indptr)` on tagged argument forms. A Python `bool` is an
+    `Integral`; `pure2mixed(n, True)` then indexes `zeros(n)` with a *boolean*, which NumPy reads as a
+    mask: `True` sets every entry to 1, `False` none. -/
+def flattenInitForms (nums : List Nat) (init : List (InitEntry α)) : List α :=
+  ((List.range nums.length).map fun i =>
+    let n := nums.getD i 0
+    match init.getD i (InitEntry.pyInt 0) with
+    | .pyInt a => pure2mixed n a
+    | .npInt a => pure2mixed n a
+    | .pyBool b => List.replicate n (if b then 1 else 0)
+    | .npBool b => List.replicate n (if b then 1 else 0)
+    | .zeroD x => List.replicate n x
+    | .scalar x => List.replicate n x
+    | .vec v => v).flatten
+
 /-- `mclennan_tourky(g, init, epsilon, max_iter, full_output=True)` after the argument checks:
     `(x_star, converged, num_iter)`; `tolBR` is the players' default `tol` (1e-8) used by
     `best_response`, `next` lines 255-269 of `_compute_fp.py`. -/
@@ -550,6 +579,17 @@ def nashMargin (nums : List Nat) (pays : List (List Rat)) (eps : Rat) (x : List 
     let d := absv (dot (prof.getD i []) pv - (vecMax pv - eps))
     if d < mn then d else mn) 1000000
 
+def parseInitEntry? (t : String) : Option (InitEntry Rat) :=
+  match t.toList with
+  | 'p' :: r => (String.ofList r).toNat?.map InitEntry.pyInt
+  | 'n' :: r => (String.ofList r).toNat?.map InitEntry.npInt
+  | 'b' :: r => (String.ofList r).toNat?.map fun k => InitEntry.pyBool (k != 0)
+  | 'B' :: r => (String.ofList r).toNat?.map fun k => InitEntry.npBool (k != 0)
+  | 'z' :: r => (parseRat? (String.ofList r)).map InitEntry.zeroD
+  | 's' :: r => (parseRat? (String.ofList r)).map InitEntry.scalar
+  | 'v' :: r => (parseList? parseRat? (String.ofList r)).map InitEntry.vec
+  | _ => none
+
 def handle (toks : List String) : String :=
   match toks with
   | "argcheck" :: r =>
@@ -659,6 +699,22 @@ def handle (toks : List String) : String :=
         else "bad-op"
       else "bad-op"
     | _, _, _, _, _, _, _, _ => "bad-op"
+  | "flatinit" :: r =>
+    -- `_flatten_action_profile` on tagged argument forms (entries separated by `|`)
+    match kvNats r "nums", kv r "init" with
+    | some nums, some ini =>
+      match (ini.splitOn "|").mapM parseInitEntry? with
+      | some es =>
+        if es.length == nums.length && nums.all (· ≥ 1) &&
+            (List.range nums.length).all (fun i => match es.getD i (InitEntry.pyInt 0) with
+              | .vec v => v.length == nums.getD i 0
+              | .pyInt a => decide (a < nums.getD i 0)
+              | .npInt a => decide (a < nums.getD i 0)
+              | _ => true) then
+          showList showRat (flattenInitForms nums es)
+        else "bad-op"
+      | none => "bad-op"
+    | _, _ => "bad-op"
   | "howf" :: r =>
     -- polym_lcp_solver, IEEE doubles
     match kvNats r "nums", kvNats r "start", kvFloatMat r "pm", kvInt r "maxiter", kvNat r "fuel" with
